@@ -12,6 +12,7 @@ import (
 	"net/rpc"
 	"sync"
 
+	hclog "github.com/hashicorp/go-hclog"
 	"github.com/hashicorp/go-plugin/internal/verifhook"
 	"github.com/hashicorp/yamux"
 )
@@ -36,6 +37,14 @@ type RPCServer struct {
 	DoneCh chan<- struct{}
 
 	lock sync.Mutex
+
+	// Stdout and Stderr are shared by every connection this server accepts.
+	// Each is read by one goroutine for the lifetime of the server; what it
+	// reads is offered on these channels and taken by a connection that is
+	// still there, never by one that has gone.
+	stdioOnce sync.Once
+	stdoutCh  chan []byte
+	stderrCh  chan []byte
 }
 
 // ServerProtocol impl.
@@ -98,9 +107,16 @@ func (s *RPCServer) ServeConn(conn io.ReadWriteCloser) {
 		}
 	}
 
-	// Copy std streams out to the proper place
-	go copyStream("stdout", stdstream[0], s.Stdout)
-	go copyStream("stderr", stdstream[1], s.Stderr)
+	// Copy std streams out to the proper place. A copier ends with its
+	// connection: it must not take output meant for a later connection.
+	s.stdioOnce.Do(func() {
+		s.stdoutCh = make(chan []byte)
+		s.stderrCh = make(chan []byte)
+		go copyChan(hclog.Default(), s.stdoutCh, s.Stdout)
+		go copyChan(hclog.Default(), s.stderrCh, s.Stderr)
+	})
+	go copyChanStream("stdout", stdstream[0], s.stdoutCh, mux.CloseChan())
+	go copyChanStream("stderr", stdstream[1], s.stderrCh, mux.CloseChan())
 
 	// Create the broker and start it up
 	broker := newMuxBroker(mux)
